@@ -72,6 +72,9 @@ def run(ctx):
                       "(re-stating an exclusive limit n as the inclusive n+1 is wrong for non-integral bounds)", floor=2)
     ctx.rule("R16.m", "setter model: Parameter.__set__ interpreted abstractly on every combination (576) of route x constant/readonly x validation outcome x identity x reference mode x watchers x batching: "
                       "every value that is stored was validated first -- on every route, the constructor route of constant parameters included", floor=1)
+    ctx.rule("R16.j", "the value type the validator admits is the type the schema states: for the types whose schema is a literal JSON type (Boolean, Integer, Number, String, List, Tuple, Dict) "
+                      "the full validator, interpreted abstractly with the type predicates as inputs, accepts a value iff it is of the declared type or None-with-allow_None (a Boolean that admits 0 / 1 "
+                      "serializes a number the schema's 'boolean' rejects)", floor=5)
     ctx.rule("R16.g", "every value class the Number validator accepts is accepted by the emitted schema keywords, also for inclusivity flags that are not literally True/False "
                       "(0, 1): abstract interpretation of both sides on bounds x flags x ordering class (exhaustive)", floor=1)
     ctx.not_decided += ["that arbitrary serialized values validate against the schema (needs a validator run)", "Selector enum contents (run-time objects)"]
@@ -415,6 +418,10 @@ def run(ctx):
                  input="Number(bounds=(0, 10), inclusive_bounds=(0, 1)); x = 0 is accepted, schema says exclusiveMinimum 0")
     else:
         ctx.ok("R16.g", vf, vf.node, "%d cases: whatever the validator accepts, the schema accepts (flags True/False/1/0)" % n2)
+
+    from checks import c01_types
+    for q_ in ("param.parameters.Boolean", "param.parameters.Integer", "param.parameters.Number", "param.parameterized.String", "param.parameters.List", "param.parameters.Tuple", "param.parameters.Dict"):
+        c01_types.run_type(ctx, q_, rule="R16.j")
 
     # model-level rule, run last
     from checks import setter_model
